@@ -44,25 +44,48 @@ context.  Sandboxes follow the documented hierarchy
 <workdir>/radical.pilot.sandbox/<session>/<pilot>/<task>.  Transfer/Tarball
 are client side actions, Copy/Link/Move agent side actions.
 
-Oracle
+Oracle (clause names as they appear in violation keys)
 ------
-input-target    task passed input staging  => each target holds the bytes of
-                its source (Link: same inode or symlink; Move: source gone)
-output-target   same after output staging of a DONE task
-unstageable     a directive whose source is missing => that task ends FAILED
-                (is not passed on / does not end DONE)
-bystander       the other task of the bulk is passed on, staged and DONE
-good-task       a task whose directives can all be carried out is not failed
-failed-task     FAILED / CANCELED without stage_on_error => no output target
-form-refused    a documented form is refused by expand_description
+target-<symptom>        a task passed input staging / a DONE task passed output
+                        staging => the target of every directive holds the
+                        bytes of its source; symptoms: missing, misplaced (the
+                        bytes are elsewhere), wrong-content, not-a-link (Link:
+                        same inode or symlink to it), source-not-removed (Move)
+unstageable-not-failed  a directive whose source is missing => that task ends
+                        FAILED (is not passed on / does not end DONE)
+good-task-failed        a task whose directives can all be carried out is not
+                        FAILED by a stager
+bystander-failed,       the other task of the bulk is passed on, staged, DONE,
+failed-and-passed/-done and never announced as FAILED
+failed-task-output-staged  FAILED / CANCELED without stage_on_error (or a task
+                        which failed in input staging) => no output target
+form-refused            a documented form is refused at submission
+
+Not demanded (observed only): what happens to output directives of a failed
+task *with* stage_on_error; whether an exception text is recorded.
 
 Inputs which the code may legitimately refuse (the task is FAILED, nothing is
-demanded; if it is passed on the target clause applies):  `client://` in an
-agent side action (documented as unsupported in Session._get_client_sandbox),
-source == target, `schema://p` with p parsed as host (documented as invalid).
+demanded; if it is passed on / DONE the data must be in place):  `client://`
+in an agent side action (documented as unsupported in
+Session._get_client_sandbox), source == target, `schema://p` with p parsed as
+host (documented as invalid).
+
+Keys
+----
+`clause|site|trigger`.  The site is diagnosed per failure: expansion differs
+from the reference -> expand_staging_directives; the real complete_url(), run
+alone, resolves the path differently -> complete_url; the stager's own copy()
+run alone does not copy the file / does not report a missing file ->
+<backend>.copy; tarball arrived intact in the task sandbox -> agent side; else
+the component which handles the action.  For the target and good-task-failed
+clauses the trigger is computed at the end of the run (`aggregate`): the
+direction plus the smallest set of directive attributes (op, action, form,
+source / target location and shape, odd spelling) such that every evaluated
+directive agreeing on them fails -- one cause, one key.
 '''
 
 import os
+import glob
 import shutil
 import tempfile
 import itertools
@@ -134,18 +157,21 @@ def kind_of(loc):
     return 'sbx'
 
 
-def rel_name(role, direction, idx, shape, odd=None):
-    '''file name (relative) of the source / target of directive `idx`'''
-    name = '%s_%s%d.dat' % (role, direction, idx)
+def rel_name(role, direction, idx, shape, odd, tok):
+    '''file name (relative) of the source / target of directive `idx`.  Every
+    path element carries the token of the case, so that whatever a (mutated)
+    stager writes outside of the case directory can be recognised and removed,
+    and nothing left behind by another run can be picked up.'''
+    name = '%s_%s%d.%s.dat' % (role, direction, idx, tok)
     if odd == 'space' and role == 'src':
-        name = '%s %s%d.dat' % (role, direction, idx)
+        name = '%s %s%d.%s.dat' % (role, direction, idx, tok)
     if shape == 'sub':
-        if role == 'src': name = 'sd%d/%s'    % (idx, name)
-        else            : name = 'td%d/x/%s'  % (idx, name)
+        if role == 'src': name = 'sd%d.%s/%s'    % (idx, tok, name)
+        else            : name = 'td%d.%s/x/%s'  % (idx, tok, name)
     if odd == 'dotmid' and role == 'src':
-        name = 'up%d/../%s' % (idx, name)
+        name = 'up%d.%s/../%s' % (idx, tok, name)
     if odd == 'dotdot' and role == 'src':
-        name = '../up%d/%s' % (idx, name)
+        name = '../up%d.%s/%s' % (idx, tok, name)
     return name
 
 
@@ -207,14 +233,16 @@ class Directive(object):
         if spec.get('tgt'): self.tgt_loc, self.tgt_shape = spec['tgt']
         else              : self.tgt_loc, self.tgt_shape = None, None
 
+        tok = os.path.basename(os.path.dirname(absdir))
         self.src_text = text_for(self.src_loc,
                                  rel_name('src', direction, idx,
-                                          self.src_shape, self.odd),
+                                          self.src_shape, self.odd, tok),
                                  absdir, self.odd)
         if self.tgt_loc:
             self.tgt_text = text_for(self.tgt_loc,
                                      rel_name('tgt', direction, idx,
-                                              self.tgt_shape), absdir)
+                                              self.tgt_shape, None, tok),
+                                     absdir)
             self.exp_tgt_text = self.tgt_text
         else:
             self.tgt_text     = None
@@ -368,12 +396,19 @@ class World(object):
     def task_sbx(self, uid):
         return dict(self.sbx, task='%s/%s' % (self.sbx['pilot'], uid))
 
-    def move(self, src, tgt):
-        '''what Agent_0's proxy callbacks do: forward bulks between queues'''
+    def move(self, src, tgt, merge=False):
+        '''what Agent_0's proxy callbacks do: forward bulks between queues.
+        The queue bridge may hand out several messages as one bulk (`merge`)
+        or one by one.'''
+        bulks = list()
         while True:
             bulk = self.net.q_get(src)
             if not bulk:
                 break
+            bulks.append(bulk)
+        if merge and bulks:
+            bulks = [[t for bulk in bulks for t in bulk]]
+        for bulk in bulks:
             self.net.q_put(tgt, bulk)
 
     def pump(self, comp, qname):
@@ -429,6 +464,18 @@ def find_content(root, content):
             if not fname.endswith('.tar') and read_file(path) == content:
                 ret.append(path)
     return sorted(ret)
+
+
+def tar_member(tar, path):
+    import tarfile
+    try:
+        with tarfile.open(tar) as tf:
+            for m in tf.getmembers():
+                if os.path.normpath('/' + m.name) == path:
+                    return tf.extractfile(m).read().decode()
+    except Exception:
+        pass
+    return None
 
 
 _copy_probe = dict()
@@ -627,8 +674,10 @@ def check_targets(part, w, tm, directives, replay, verbose, obs):
         elif resolution_fault(d, tm.sbx):
             site = SITE_RESOLVE
         elif d.action == TARBALL and d.direction == 'in':
+            # the client side did its part if the tarball arrived in the task
+            # sandbox and holds the bytes under the name of the target
             tar = '%s/%s.tar' % (tm.sbx['task'], tm.uid)
-            if os.path.isfile(tar):
+            if tar_member(tar, d.tgt_path) == d.content:
                 site = SITE[('in', 'agent')]
         elif d.action in (COPY, TRANSFER) and what == 'missing' \
                 and os.path.isfile(d.src_path):
@@ -760,6 +809,8 @@ def fail_site(w, uid, states):
     '''the component which failed a task: the one whose working state was
     the last one published before FAILED'''
     seq = [t['state'] for t in states.get(uid, [])]
+    if rps.FAILED in seq:
+        seq = seq[:seq.index(rps.FAILED)]
     for s in reversed(seq):
         if s in WORK_STATE:
             return WORK_STATE[s]
@@ -790,12 +841,21 @@ def check_case(part, case, scratch, verbose=False):
     '''run one case through the chain; returns the observation class'''
 
     root = tempfile.mkdtemp(prefix='c11.', dir=scratch)
+    tok  = os.path.basename(root)
     cwd  = os.getcwd()
     try:
         return _check_case(part, case, root, verbose)
     finally:
         os.chdir(cwd)
         shutil.rmtree(root, ignore_errors=True)
+        # anything a (mutated) stager wrote elsewhere under this case's names
+        for base in ('/', cwd, os.path.dirname(scratch.rstrip('/'))):
+            for path in glob.glob('%s/*%s*' % (base.rstrip('/'), tok)):
+                if os.path.isdir(path) and not os.path.islink(path):
+                    shutil.rmtree(path, ignore_errors=True)
+                else:
+                    try   : os.unlink(path)
+                    except OSError: pass
 
 
 def _check_case(part, case, root, verbose):
@@ -808,7 +868,9 @@ def _check_case(part, case, root, verbose):
                   case.get('soe', False))
     B = TaskModel(w, UID_B, bystander_spec())
     models = {UID_A: A, UID_B: B}
-    order  = [A, B] if case.get('order', 'AB') == 'AB' else [B, A]
+    bulk   = case.get('order', 'AB')
+    order  = [A, B] if bulk.startswith('AB') else [B, A]
+    merge  = bulk.endswith('+')
 
     # -- input files -----------------------------------------------------------
     for tm in order:
@@ -872,7 +934,8 @@ def _check_case(part, case, root, verbose):
 
     # -- input staging ---------------------------------------------------------
     w.pump(w.tmgr_in, rpc.TMGR_STAGING_INPUT_QUEUE)
-    w.move('%s/%s' % (rpc.PROXY_TASK_QUEUE, PID), rpc.AGENT_STAGING_INPUT_QUEUE)
+    w.move('%s/%s' % (rpc.PROXY_TASK_QUEUE, PID), rpc.AGENT_STAGING_INPUT_QUEUE,
+           merge)
     w.pump(w.agent_in, rpc.AGENT_STAGING_INPUT_QUEUE)
 
     passed = {t['uid']: t for t in w.drain(rpc.AGENT_SCHEDULING_QUEUE)}
@@ -889,12 +952,15 @@ def _check_case(part, case, root, verbose):
 
         if uid in passed:
             tm.status = 'passed'
-            if st != rps.AGENT_SCHEDULING_PENDING:
-                part.violation('passed-state|%s|%s' % (fail_site(w, uid,
-                               states), st),
+            seq = [t['state'] for t in states.get(uid, [])]
+            if st != rps.AGENT_SCHEDULING_PENDING or rps.FAILED in seq:
+                part.violation('failed-and-passed|%s|%s'
+                               % (fail_site(w, uid, states),
+                                  'task-under-test' if isA else 'bystander'),
                                {'what': '%s was passed on to the agent '
-                                        'scheduler but its last published '
-                                        'state is %s' % (uid, st)}, replay)
+                                        'scheduler but was also announced as '
+                                        'FAILED: published states %s'
+                                        % (uid, seq)}, replay)
         elif st == rps.FAILED:
             tm.status = 'failed'
         else:
@@ -914,6 +980,9 @@ def _check_case(part, case, root, verbose):
 
         if isA:
             obs.append('in:%s' % tm.status)
+            if tm.status == 'failed':
+                obs.append('exception-recorded=%s'
+                           % bool(last[uid].get('exception')))
 
         if tm.status == 'passed':
             for d in bad:
@@ -974,7 +1043,8 @@ def _check_case(part, case, root, verbose):
 
     # -- output staging --------------------------------------------------------
     w.pump(w.agent_out, rpc.AGENT_STAGING_OUTPUT_QUEUE)
-    w.move(rpc.AGENT_COLLECTING_QUEUE, '%s/%s' % (rpc.PROXY_TASK_QUEUE, SID))
+    w.move(rpc.AGENT_COLLECTING_QUEUE, '%s/%s' % (rpc.PROXY_TASK_QUEUE, SID),
+           merge)
     w.pump(w.tmgr_out, '%s/%s' % (rpc.PROXY_TASK_QUEUE, SID))
 
     states = w.states()
@@ -1007,6 +1077,9 @@ def _check_case(part, case, root, verbose):
         ref = [d for d in tm.outs if d.refusable]
         if isA:
             obs.append('out:%s->%s' % (tm.outcome, st))
+            if st == rps.FAILED and tm.outcome == rps.DONE:
+                obs.append('exception-recorded=%s'
+                           % bool(last[uid].get('exception')))
 
         if st not in rps.FINAL:
             part.violation('not-final|%s|%s' % (fail_site(w, uid, states),
@@ -1018,6 +1091,15 @@ def _check_case(part, case, root, verbose):
         if tm.outcome == rps.DONE:
 
             if st == rps.DONE:
+                seq = [t['state'] for t in states.get(uid, [])]
+                if rps.FAILED in seq:
+                    part.violation('failed-and-done|%s|%s'
+                                   % (fail_site(w, uid, states),
+                                      'task-under-test' if isA
+                                                        else 'bystander'),
+                                   {'what': '%s is DONE but was also announced'
+                                            ' as FAILED: published states %s'
+                                            % (uid, seq)}, replay)
                 for d in bad:
                     part.unstageable(d, 'unstageable-not-failed|%s|%s'
                                      % unstageable_site(w, d),
@@ -1131,6 +1213,25 @@ def reduced_directives():
     return out
 
 
+def medium_directives():
+    '''alphabet for the complete product of pairs (thorough tier)'''
+    out  = list()
+    srcs = [['rel', 'flat'], ['client', 'sub'], ['pilot', 'sub'],
+            ['abs', 'flat']]
+    tgts = [['rel', 'sub'], ['session', 'sub']]
+    for src in srcs:
+        out.append({'form': 'str', 'src': src})
+        for action in ACTIONS:
+            out.append({'form': 'dict', 'action': action, 'src': src})
+        for tgt in tgts:
+            out.append({'form': '>',  'src': src, 'tgt': tgt})
+            out.append({'form': '<<', 'src': src, 'tgt': tgt})
+            for action in ACTIONS:
+                out.append({'form': 'dict', 'action': action, 'src': src,
+                            'tgt': tgt})
+    return out
+
+
 def gen_cases(quick):
 
     cases = list()
@@ -1139,7 +1240,9 @@ def gen_cases(quick):
     for direction in ('in', 'out'):
         for d in single_directives(direction, full=not quick):
             for present in (True, False):
-                orders = ['AB'] if present else ['AB', 'BA']
+                if   present: orders = ['AB']
+                elif quick  : orders = ['AB+', 'BA+']
+                else        : orders = ['AB', 'BA', 'AB+', 'BA+']
                 for order in orders:
                     cases.append({'part' : '%s1' % direction,
                                   direction: [dict(d, present=present)],
@@ -1156,8 +1259,9 @@ def gen_cases(quick):
 
     # part pairs: lists of two directives (order matters), present / missing
     red = reduced_directives()
+    med = red if quick else medium_directives()
     for direction in ('in', 'out'):
-        for d1, d2 in itertools.product(red, red):
+        for d1, d2 in itertools.product(med, med):
             for p1, p2 in ((True, True), (True, False), (False, True)):
                 if quick and not (p1 and p2) and \
                    (d1['form'] != 'dict' or d2['form'] != 'dict'):
@@ -1204,15 +1308,27 @@ _cases   = None
 _scratch = None
 
 
+class scratch_tmp(object):
+    '''temp files of the code under test (tarballs) go below the scratch dir'''
+
+    def __init__(self, scratch):
+        self.tmp = '%s/tmp.%d' % (scratch, os.getpid())
+
+    def __enter__(self):
+        self.old = tempfile.tempdir
+        os.makedirs(self.tmp, exist_ok=True)
+        tempfile.tempdir = self.tmp
+
+    def __exit__(self, *args):
+        tempfile.tempdir = self.old
+        return False
+
+
 def _job(idx):
     lo, hi = idx
     part   = Collector()
     counts = dict()
-    old    = tempfile.tempdir
-    tmp    = '%s/tmp.%d' % (_scratch, os.getpid())
-    os.makedirs(tmp, exist_ok=True)
-    tempfile.tempdir = tmp
-    try:
+    with scratch_tmp(_scratch):
         for i in range(lo, hi):
             case = _cases[i]
             obs  = check_case(part, case, _scratch)
@@ -1222,8 +1338,6 @@ def _job(idx):
                          + obs)
             k = 'cases_%s' % case['part']
             counts[k] = counts.get(k, 0) + 1
-    finally:
-        tempfile.tempdir = old
     part.cover(evaluations=hi - lo, **counts)
     return part.dump()
 
@@ -1258,14 +1372,17 @@ def run(ctx):
     ctx.cover(directives_target_checked=sum(evals.values()),
               directive_classes=len(evals))
 
-    for pick in (lambda c: c['part'] == 'in1' and c['in'][0]['form'] == '>>',
+    for pick in (lambda c: c['part'] == 'in1' and c['in'][0]['form'] == '>>'
+                           and c['in'][0]['src'][0] == 'rel'
+                           and c['in'][0]['tgt'][0] == 'rel',
                  lambda c: c['part'] == 'outcome' and c['soe'] is False
                            and c['out'][0].get('action') == COPY,
                  lambda c: c['part'] == 'in2' and
                            not c['in'][1]['present']):
         for case in _cases:
             if pick(case):
-                obs = check_case(Collector(), case, _scratch)
+                with scratch_tmp(_scratch):
+                    obs = check_case(Collector(), case, _scratch)
                 ctx.sample({'case': case, 'observed': obs})
                 break
 
@@ -1275,16 +1392,22 @@ def run(ctx):
                  '`g << f`, dict x 5 actions with and without target} x source'
                  ' location x target location (client, task, pilot, session, '
                  'resource, endpoint, file://, absolute, relative; %s) x '
-                 'source present / missing (missing: both bulk orders); '
+                 'source present / missing (missing: task before / after the '
+                 'bystander%s); '
                  '(outcome) FAILED / CANCELED x stage_on_error x output '
-                 'directives; (in2/out2) ordered pairs of representative '
-                 'directives x which source is missing; (both) input x output'
-                 ' directive on one task; (odd) file name with space, `d/../f`, `../d/f`, '
-                 'host element, `f>g`, dict without action.  Every bulk = task'
-                 ' under test + bystander.  distinct = distinct (part, forms,'
-                 ' observed behaviour) classes'
+                 'directives; (in2/out2) all ordered pairs over %d '
+                 'representative directives x which source is missing; (both) '
+                 'input x output directive on one task; (odd) file name with '
+                 'space, `d/../f`, `../d/f`, host element, `f>g`, dict without '
+                 'action.  Every bulk = task under test + bystander.  '
+                 'distinct = distinct (part, forms, observed behaviour) '
+                 'classes'
                  % ('flat and sub-directory paths' if not ctx.quick else
-                    'one path shape per location'))
+                    'one path shape per location',
+                    ', bulks forwarded merged' if ctx.quick else
+                    ', bulks forwarded merged / one by one',
+                    len(reduced_directives() if ctx.quick
+                        else medium_directives())))
     ctx.set(distinct_nontrivial=len(ctx.outcomes))
     ctx.assume('scheduler and executor of the agent are played by the harness:'
                ' it creates the output files and sets target_state',
@@ -1297,14 +1420,15 @@ def run(ctx):
 def replay(ctx, data):
     case = data['replay']
     part = Collector()
-    tempfile.tempdir = ctx.scratch
     print('case:', case)
-    obs = check_case(part, case, ctx.scratch, verbose=True)
+    with scratch_tmp(ctx.scratch):
+        obs = check_case(part, case, ctx.scratch, verbose=True)
     print('observed:', obs)
     for k, (d, _) in part.violations.items():
         print('VIOLATED', k, '::', d['what'])
     for (what, site, attrs), (d, _) in part.fails.items():
-        print('VIOLATED', '%s|%s|%s' % (what, site, ','.join(
+        print('VIOLATED', '%s|%s|%s' % ('good-task-failed'
+              if what == 'task-failed' else 'target-%s' % what, site, ','.join(
               '%s=%s' % kv for kv in zip(ATTRS, attrs))), '::', d['what'])
     for (key, _, _), (d, _) in part.unst.items():
         print('VIOLATED', key, '::', d['what'])
